@@ -1131,6 +1131,14 @@ pub fn setup<T: Payload>(p: &Program) -> Vec<(Option<SH<T>>, Option<RH<T>>)> {
             let (s, r) = kanal::bounded::<T>(n as usize);
             (SH::Sync(s), RH::Sync(r))
         }
+        (Flavour::Sync, Cap::Big) => {
+            let (s, r) = kanal::bounded::<T>(crate::prog::BIG);
+            (SH::Sync(s), RH::Sync(r))
+        }
+        (Flavour::Async, Cap::Big) => {
+            let (s, r) = kanal::bounded_async::<T>(crate::prog::BIG);
+            (SH::Async(s), RH::Async(r))
+        }
         (Flavour::Sync, Cap::Unbounded) => {
             let (s, r) = kanal::unbounded::<T>();
             (SH::Sync(s), RH::Sync(r))
